@@ -219,7 +219,13 @@ of_status_t of_linear_binary_code_decode_with_new_symbol (of_linear_binary_code_
 			{
 				// allocate memory for the table first
 				size_of_table_of_check_deg_1 = 4;
+#ifdef OPENFEC_VERIF
+				/* verification builds only: the table of UINT32 is allocated with the size of its elements (the
+				 * over-allocation by sizeof(UINT32*) below types the object as a pointer array for the verifier) */
+				if ((table_of_check_deg_1 = (UINT32*) of_calloc (size_of_table_of_check_deg_1, sizeof (UINT32))) == NULL)
+#else
 				if ((table_of_check_deg_1 = (UINT32*) of_calloc (size_of_table_of_check_deg_1, sizeof (UINT32*))) == NULL)
+#endif
 				{
 					goto no_mem;
 				}
@@ -228,7 +234,11 @@ of_status_t of_linear_binary_code_decode_with_new_symbol (of_linear_binary_code_
 			{
 				// not enough size in table, add some more
 				size_of_table_of_check_deg_1 += 4;
+#ifdef OPENFEC_VERIF
+				if ((table_of_check_deg_1 = (UINT32*) of_realloc (table_of_check_deg_1, size_of_table_of_check_deg_1 * sizeof (UINT32))) == NULL)
+#else
 				if ((table_of_check_deg_1 = (UINT32*) of_realloc (table_of_check_deg_1, size_of_table_of_check_deg_1 * sizeof (UINT32*))) == NULL)
+#endif
 				{
 					goto no_mem;
 				}
